@@ -64,8 +64,9 @@ Definition set_resize (t : ht) (z : N) : ht :=
 (* hash & (ht->size - 1) on uint32_t *)
 Definition bucket (t : ht) (h : N) : N := N.land h ((ht_size t + U32 - 1) mod U32).
 
-(* r = (ht->used * LYHT_HUNDRED_PERCENTAGE) / ht->size, on uint32_t: the product wraps *)
-Definition pct (t : ht) : N := ((ht_used t * LYHT_HUNDRED_PERCENTAGE) mod U32) / ht_size t.
+(* r = ((uint64_t)ht->used * LYHT_HUNDRED_PERCENTAGE) / ht->size: used < 2^32, the 64-bit product cannot wrap
+   (since /repo commit be54a69; before it the product was taken in uint32_t and wrapped beyond 2^25 records) *)
+Definition pct (t : ht) : N := (ht_used t * LYHT_HUNDRED_PERCENTAGE) / ht_size t.
 
 (* ---- lyht_init_hlists_and_records() (hash_table.c:58-84) ----
    calloc gives hash 0 and a zero value; rec->next = i + 1 for every i: the test [i != ht->size]
@@ -261,12 +262,12 @@ Definition lyht_remove (t : ht) (h : N) (v : V) : res (N * ht) :=
     else Ok (LY_ERR_SUCCESS, t1)))))))
   end).
 
-(* ---- lyht_dup() (hash_table.c:138-154) ----
-   memcpy of hlists and recs and a copy of [used]; first_free_rec keeps the value 0 given by
-   lyht_new (it is NOT copied), and resize 2 becomes 1. *)
+(* ---- lyht_dup() (hash_table.c:138-155) ----
+   memcpy of hlists and recs, copies of [used] and (since /repo commit d69e9c2) of first_free_rec;
+   resize 2 becomes 1. *)
 Definition lyht_dup (t : ht) : res ht :=
   bind (lyht_new (ht_size t) (if ht_resize t =? 0 then 0 else 1)) (fun n =>
-    Ok (mkht (ht_used t) (ht_size n) (ht_resize n) (ht_ff n) (ht_hl t) (ht_recs t))).
+    Ok (mkht (ht_used t) (ht_size n) (ht_resize n) (ht_ff t) (ht_hl t) (ht_recs t))).
 
 (* in-place update of a stored value through the pointer returned in *match_p *)
 Definition set_val (t : ht) (i : N) (v : V) : res ht :=
